@@ -93,30 +93,56 @@ fn c03_o4p_signed_announce_request() {
 //@ tier: quick
 //@ cap: 900
 //@ also: C03 C05
-//@ desc: malformed key or signature lengths are rejected without panic (key length in {0,31,33}, signature length in {0,63,65}) on both the request and the response path
-//@ bounds: six length combinations, concrete contents; unwind 130
+//@ desc: malformed key lengths are rejected without panic and without any verification (key length in {0, 31, 33}) on both the request and the response path
+//@ bounds: three key lengths (symbolic choice), concrete contents, well-formed 64-byte signature; unwind 130
 //@ stubs: verify -> oracle (never reached); system_time -> symbolic
-//@ functions: SignedAnnounce::from_dht_message
+//@ functions: SignedAnnounce::from_dht_message, VerifyingKey::try_from (length check)
 #[kani::proof]
 #[kani::stub(<ed25519_dalek::VerifyingKey as ed25519_dalek::Verifier<ed25519_dalek::Signature>>::verify, oracle::verify_stub)]
 #[kani::stub(system_time, wall::system_time)]
 #[kani::unwind(130)]
-fn c02_o2b_signed_announce_lengths() {
+fn c02_o2b_signed_announce_key_lengths() {
     oracle::arm(0, true);
     wall::set(0);
     let which: u8 = kani::any();
-    kani::assume(which < 6);
+    kani::assume(which < 3);
     let kbuf = [1u8; 33];
-    let sbuf = [2u8; 65];
-    let klen = if which == 0 { 0 } else if which == 1 { 31 } else if which == 2 { 33 } else { 32 };
-    let slen = if which == 3 { 0 } else if which == 4 { 63 } else if which == 5 { 65 } else { 64 };
-    let key: &[u8] = if which < 3 { &kbuf[..klen] } else { &oracle::K1 };
+    let sbuf = [2u8; 64];
+    let klen = if which == 0 { 0 } else if which == 1 { 31 } else { 33 };
     let req: bool = kani::any();
-    let r = SignedAnnounce::from_dht_message(&Id::from([0u8; 20]), key, 0, &sbuf[..slen], req);
+    let r = SignedAnnounce::from_dht_message(&Id::from([0u8; 20]), &kbuf[..klen], 0, &sbuf, req);
     assert!(r.is_err(), "C02.O2b malformed key or signature length rejected");
     assert!(oracle::asked() == 0, "C02.O2b nothing verified for malformed lengths");
     kani::cover!(which == 2 && req);
-    kani::cover!(which == 5 && !req);
+    kani::cover!(which == 0 && !req);
+    std::mem::forget(r);
+}
+
+//@ ob: C02.O2c
+//@ tier: quick
+//@ cap: 900
+//@ also: C03 C05
+//@ desc: malformed signature lengths are rejected without panic and without any verification (signature length in {0, 63, 65}) with a well-formed key, on both the request and the response path
+//@ bounds: three signature lengths (symbolic choice), concrete valid key; unwind 130 (concrete point decompression)
+//@ stubs: verify -> oracle (never reached); system_time -> symbolic
+//@ functions: SignedAnnounce::from_dht_message, Signature::from_slice
+#[kani::proof]
+#[kani::stub(<ed25519_dalek::VerifyingKey as ed25519_dalek::Verifier<ed25519_dalek::Signature>>::verify, oracle::verify_stub)]
+#[kani::stub(system_time, wall::system_time)]
+#[kani::unwind(130)]
+fn c02_o2c_signed_announce_sig_lengths() {
+    oracle::arm(0, true);
+    wall::set(0);
+    let which: u8 = kani::any();
+    kani::assume(which < 3);
+    let sbuf = [2u8; 65];
+    let slen = if which == 0 { 0 } else if which == 1 { 63 } else { 65 };
+    let req: bool = kani::any();
+    let r = SignedAnnounce::from_dht_message(&Id::from([0u8; 20]), &oracle::K1, 0, &sbuf[..slen], req);
+    assert!(r.is_err(), "C02.O2b malformed key or signature length rejected");
+    assert!(oracle::asked() == 0, "C02.O2b nothing verified for malformed lengths");
+    kani::cover!(which == 2 && req);
+    kani::cover!(which == 0 && !req);
     std::mem::forget(r);
 }
 
